@@ -439,6 +439,12 @@ def check_property(pid, tier, seed, replay=None, verbose=True):
         else:
             violations.append(f)
 
+    try:
+        if replay is None:
+            json.dump([dict(sig=f["sig"], detail=f["detail"], target=f.get("target")) for f in failures],
+                      open(os.path.join(BUILD, "last-failures-%s.json" % pid), "w"), indent=1)
+    except Exception:
+        pass
     if violations:
         cnt = {}
         for f in violations:
